@@ -271,6 +271,27 @@ func Run(ctx *common.Ctx) int {
 			}
 		}
 	}
+	// consecutive failing calls in one process: W+2 calls, each on its own failing source; a resource a failing
+	// call leaves behind (a limiter slot, a goroutine, a buffer) shows in the later calls
+	for wi := range wf.All {
+		w := &wf.All[wi]
+		if quick && w.Name == "Factory" {
+			continue
+		}
+		for _, W := range []int{1, 2} {
+			var sp []fast.SrcSpec
+			for _, idx := range []int{0, w.S / 2, w.S - 1} {
+				for _, ks := range []struct {
+					k  string
+					st bool
+				}{{"eof", true}, {"custom", false}, {"partialhalf", false}, {"shortthen", false}} {
+					sp = append(sp, fast.SrcSpec{Kind: "fault", Index: idx, Index2: -1, Err: ks.k, Sticky: ks.st})
+				}
+			}
+			p, _ := json.Marshal(fast.Params{Workflow: w.Name, Scenario: "all-pass", Srcs: sp, Mode: "c09", Repeat: W + 1})
+			tasks = append(tasks, e1.Task{Check: "C09", Name: fmt.Sprintf("c09/%s-x%d/W%d/b0/p0", w.Name, W+2, W), Params: p, Bound: 0, Policy: 0, W: W, NShards: 1, CostAll: true})
+		}
+	}
 	ctx.Printf("C09: %d exploration tasks\n", len(tasks))
 	m := e1.RunTasks(ctx, info.Bin, tasks, 0, false)
 	cov := fast.Report(ctx, m, info, nil)
